@@ -311,6 +311,18 @@ fn redelivery_probe(w: &mut World, m: usize, idx: usize, reps: usize, mon: &mut 
     for (gi, (b, a)) in before.iter().zip(after.iter()).enumerate() {
         if b != a {
             let parts = b.diff(a);
+            // history-derived predicate: earlier, a commit of this very epoch made this client roll
+            // back and was then refused (the known "rollback before validation" finding); the
+            // snapshot bookkeeping of that epoch is unreliable from then on
+            let after_forced_rollback = p.kind == PubKind::Commit && w.clients[m].rollback_then_refused.iter().any(|r| w.log[*r].g == p.g && w.log[*r].at.1 == p.at.1);
+            if after_forced_rollback && gi == g {
+                mon.find(
+                    "C07",
+                    format!("C07|changed|{kind}|rolled-back-again|after-a-refused-commit-forced-a-rollback-in-that-epoch"),
+                    format!("re-delivering e{idx} ({kind}, created at epoch {}) to c{m} at epoch {cur_epoch} x{reps} changed {:?} of group g{gi} after e{:?} had rolled this client back and been refused ({ctx})", p.at.1, parts, w.clients[m].rollback_then_refused),
+                );
+                return;
+            }
             mon.find(
                 "C07",
                 format!("C07|changed|{kind}|parts={}|{}|result={}", parts.join("+"), if gi == g { "same-group" } else { "other-group" }, classes[0]),
